@@ -10,6 +10,7 @@ package main
 // loses its reset (hoisted declaration).
 
 import (
+	"os"
 	"fmt"
 	"go/types"
 	"sort"
@@ -481,4 +482,91 @@ func ruleStaleIndex(p *Prog, r *Report, pkgs map[string]bool) {
 		}
 	}
 	r.note("R-IDX: %d appends to indexed lists inside lookup loops", n)
+}
+
+// mustCallsOf: module callees (closures by the variable they are bound to) that are called on
+// every path from the entry of fn to a normal return: some call of the callee lies in a block
+// that dominates every returning block.
+func mustCallsOf(p *Prog, fn *ssa.Function) []string {
+	var rets []*ssa.BasicBlock
+	for _, b := range fn.Blocks {
+		if n := len(b.Instrs); n > 0 {
+			if _, ok := b.Instrs[n-1].(*ssa.Return); ok {
+				rets = append(rets, b)
+			}
+		}
+	}
+	set := map[string]bool{}
+	for _, cs := range callsOf(fn) {
+		if _, isDefer := cs.In.(*ssa.Defer); isDefer {
+			continue
+		}
+		all := len(rets) > 0
+		for _, rb := range rets {
+			if !cs.In.Block().Dominates(rb) {
+				all = false
+			}
+		}
+		if !all {
+			continue
+		}
+		for _, c := range calleesOfSite(p, cs) {
+			if !isModFunc(c) {
+				continue
+			}
+			n := shortName(c)
+			if cn := closureName(c); cn != "" {
+				n = cn
+			}
+			set[n] = true
+		}
+	}
+	var out []string
+	for k := range set {
+		out = append(out, k)
+	}
+	sort.Strings(out)
+	return out
+}
+
+func ruleMustCalls(p *Prog, r *Report, rule, prop string) {
+	r.rule(rule, "The planner's phases run on every path: for each planner entry function of tables/phases.tsv every audited phase (a module function or a closure, by the variable it is bound to) is still called in a block that dominates every normal return of the function. An early return in front of a phase (`nothing changed so far, nothing to clean up`) skips the objects that only that phase handles.")
+	n := 0
+	for _, row := range readTable("phases.tsv", 4) {
+		if !propListed(row[1], prop) {
+			continue
+		}
+		n++
+		fn := p.Funcs[row[0]]
+		if fn == nil {
+			r.fail(rule, "phases|"+row[0], "", "function "+row[0]+" not found", "re-audit: the planner entry function is gone or renamed")
+			continue
+		}
+		have := map[string]bool{}
+		for _, c := range mustCallsOf(p, fn) {
+			have[c] = true
+		}
+		var missing []string
+		for _, ph := range strings.Split(row[2], ",") {
+			ph = strings.TrimSpace(ph)
+			if ph != "" && !have[ph] {
+				missing = append(missing, ph)
+			}
+		}
+		r.add(rule, "phases|"+row[0], p.pos(fn.Pos()), fmt.Sprintf("every return of %s is behind its phases %s (%s)", row[0], row[2], row[3]), len(missing) == 0,
+			fmt.Sprintf("not called on every path to a return any more: %v — what only these phases handle (clean-up of unused objects, transfers) is skipped on the new path", missing))
+	}
+	r.floor(rule, "planner entry functions for "+prop, n, 1)
+}
+
+func init() {
+	dumpers["mustcalls"] = func(p *Prog, m *Model) {
+		for _, n := range strings.Split(os.Getenv("FN"), ";") {
+			if fn := p.Funcs[n]; fn != nil {
+				fmt.Printf("%s\tPROPS\t%s\tREASON\n", n, strings.Join(mustCallsOf(p, fn), ","))
+			} else {
+				fmt.Println("not found:", n)
+			}
+		}
+	}
 }
